@@ -64,6 +64,36 @@ class Ctx:
         return Ob(oid, "E2.equiv", where, r.status, detail, r.key, r.code, r.ref)
 
 
+    # ---- role rules that a whole-function contract implies
+    def ref_term(self, q, variant=None):
+        """normalised term of the reference of q, over the parameter names of the code"""
+        from . import terms as T
+        rm, rfi, meta = self.contracts.refs[(q, variant)]
+        cl = T.FuncLower(self.program, self.program.func(q))
+        rl = T.FuncLower(self.program, rfi, param_names=None)
+        rl.param_names = cl.params[:len(rl.params)]
+        return T.norm(rl.term())
+
+    def settle_roles(self, pid, q, code_obs, ref_obs, variant=None):
+        """A role rule looks for a particular shape in ONE function whose whole-function contract is claimed by the same
+        property. The rule must hold on the reference (else the reference is wrong: analysis error). Where the rule does not
+        recognise the code's shape but the code is proven equivalent to that reference, the role holds by equivalence; a
+        role violation is reported only together with a contract that is not discharged (it then names what deviates)."""
+        bad = [o for o in ref_obs if o.status != "ok"]
+        if bad:
+            raise AnalysisError(f"role rule {bad[0].id} does not hold on the reference of {q}: {bad[0].detail[:200]}")
+        if all(o.status == "ok" for o in code_obs):
+            return code_obs
+        r = self.contracts.check(q, variant, pid)
+        if r.status == "ok":
+            for o in code_obs:
+                if o.status != "ok":
+                    o.detail = "shape of this rule not recognised in the code; the role holds because code ≡ reference and the rule " \
+                               "holds on the reference (was: " + o.detail[:160] + ")"
+                    o.status = "ok"
+        return code_obs
+
+
 def load_known(path):
     """known: property=C05 key=<key> :: text      |      fixed: property=C10 <commit> <text>"""
     known = {}
